@@ -1,7 +1,112 @@
-"""C13: corpus-based check (back-end correspondence on the projection + oracle on the implementation's output)."""
+"""C13: docstring text reaches the right element intact - comment assembly (back end), per-element oracle, and the
+one-entry docstring cache against the real DocstringParser on real griffe trees (L0)."""
+from __future__ import annotations
+
+import random
+
+import gen_pkg
+import implrun
 import oracles
+import vlib
 from props.common import corpus_check
 
 
+def dump_tree(node):
+    kind = "module" if node.is_module else "class" if node.is_class else "function" if node.is_function else "attribute"
+    members = []
+    for coll in (node.modules, node.classes, node.functions, node.attributes):
+        for m in coll.values():
+            if getattr(m, "is_alias", False):
+                continue
+            members.append(dump_tree(m))
+    doc = node.docstring.value if node.docstring is not None else None
+    return [node.name, kind, vlib.opt(doc), members]
+
+
+def all_qnames(tree, prefix=""):
+    name, kind, doc, members = tree
+    q = f"{prefix}.{name}" if prefix else name
+    out = [(q, kind)]
+    for m in members:
+        out += all_qnames(m, q)
+    return out
+
+
+def cache_l0(ctx):
+    """random query sequences against the real parser's cache"""
+    from griffe.enumerations import Parser
+    from safeds_stubgen.docstring_parsing._docstring_parser import DocstringParser
+    rng = random.Random(ctx["seed"] + 13)
+    tier = ctx["tier"]
+    npk, nseq = (4, 150) if tier == "quick" else (20, 1500)
+    base = implrun.scratch_dir("c13")
+    cases, meta = [], []
+    for i in range(npk):
+        style = ["numpydoc", "google", "rest"][i % 3]
+        p = gen_pkg.gen_package(rng, i, style=style, nmods=2, doc_types=True, reexports=False)
+        root = base / f"t{i}"
+        implrun.write_tree(root, gen_pkg.package_files(p))
+        parser = DocstringParser({"numpydoc": Parser.numpy, "google": Parser.google, "rest": Parser.sphinx}[style], root / p.name)
+        tree = dump_tree(parser.griffe_build)
+        names = all_qnames(tree)
+        pool = [q for q, _ in names] + [q + ".__init__" for q, k in names if k == "class"]
+        get = getattr(parser, "_DocstringParser__get_cached_docstring")
+        for _ in range(nseq):
+            qs = []
+            for _k in range(rng.randrange(2, 9)):
+                r = rng.random()
+                if qs and r < 0.35:
+                    qs.append(rng.choice(qs))          # repeat an earlier query
+                elif r < 0.97:
+                    qs.append(rng.choice(pool))
+                else:
+                    qs.append(rng.choice(pool) + ".missing_member")
+            # fresh cache state for each sequence
+            setattr(parser, "_DocstringParser__cached_node", None)
+            setattr(parser, "_DocstringParser__cached_docstring", None)
+            got = []
+            err = None
+            for q in qs:
+                try:
+                    d = get(q)
+                    got.append(None if d is None else d.value)
+                except Exception as e:  # noqa: BLE001
+                    err = type(e).__name__
+                    break
+            cases.append(vlib.sx(["doc_cache", tree, qs]))
+            meta.append((qs, got, err))
+    implrun.cleanup()
+    model = vlib.run_model(cases)
+    dis, vio = [], []
+    nontriv = 0
+    for (qs, got, err), m in zip(meta, model, strict=True):
+        cached, uncached = m
+        if len(set(qs)) < len(qs) and any(q.endswith("__init__") for q in qs):
+            nontriv += 1
+        if err:
+            if cached[0] != "err" or cached[1] != err:
+                dis.append({"case": qs, "impl": err, "model": cached})
+            continue
+        want = [None if not x else x[0] for x in cached[1]] if cached[0] == "ok" else None
+        if want != got:
+            dis.append({"case": qs, "impl": got, "model": cached})
+        # the property on the implementation: each answer is the docstring of the queried element (uncached lookup)
+        truth = [None if not x else x[0] for x in uncached[1]] if uncached[0] == "ok" else None
+        if truth is not None and got != truth:
+            vio.append({"what": f"the docstring cache returns the docstring of another element for the query sequence {qs}",
+                        "observed": got, "expected": truth, "finding": None})
+    return dis, vio, len(cases), nontriv
+
+
 def run(ctx):
-    return corpus_check(ctx, "C13", oracles.c13)
+    res = corpus_check(ctx, "C13", oracles.c13)
+    dis, vio, n, nontriv = cache_l0(ctx)
+    res["disagreements"] += dis
+    res["violations"] += vio
+    res["evaluations"] += n
+    res["distinct_nontrivial"] += nontriv
+    res["stats"]["cache_query_sequences"] = n
+    res["rule"] += "; plus random query sequences (repeats, implicit constructors, missing members) against the real DocstringParser " \
+                   "cache on real griffe trees, compared with the model and with the uncached lookup; a sequence is non-trivial when " \
+                   "it repeats a name and contains an __init__ query"
+    return res
